@@ -439,7 +439,7 @@ func seqWatchdog(r *hx.Run) {
 			continue
 		}
 		switch strings.Fields(*op)[0] {
-		case "forced", "overlap", "inside", "race", "mforced", "alias", "cross", "stress":
+		case "forced", "overlap", "inside", "race", "pairs", "mforced", "alias", "cross", "stress":
 			continue
 		}
 		if time.Since(since) > seqLimit {
@@ -1196,6 +1196,8 @@ func (w *world) exec1(op string) string {
 		return w.inside(f[1], f[2])
 	case "race":
 		return w.race(f[1], num(2))
+	case "pairs":
+		return w.pairs(num(1))
 	case "stress":
 		seed, _ := strconv.ParseUint(f[4], 10, 64)
 
